@@ -232,7 +232,7 @@ class FinalizeContext(Unit):
     name = "U.finalize_context"
     functions = ["orquesta.specs.native.v1.models.TaskSpec.finalize_context"]
     obligations = {
-        "C06.finalize.delta": {"props": ["C06", "C20", "C01"], "text":
+        "C06.finalize.delta": {"props": ["C06", "C20", "C01", "C16"], "text":
             "the new delta holds exactly the variables of this transition's publish list (when the target is one of the transition's `do` names, in any documented notation), each evaluated in order against a rolling copy in which earlier publishes of the same list are visible; nothing else; a publish equal to the inherited value is still published"},
         "C06.finalize.in_ctx_unchanged": {"props": ["C06", "C16"], "text":
             "finalize_context does not modify the context it is given (other than what merge into the returned out_ctx does to the caller's disposable copy) and the delta shares no container with it"},
